@@ -96,7 +96,12 @@ impl SetOperations {
 
         let start = std::time::Instant::now();
 
-        let result = if self.config.use_bit_mask_optimization && num_ways <= self.config.bit_mask_threshold {
+        // The bit mask is a u32: the optimization covers at most 32 ways whatever the
+        // configured threshold says.
+        let result = if self.config.use_bit_mask_optimization
+            && num_ways <= self.config.bit_mask_threshold
+            && num_ways <= 32
+        {
             self.stats.used_bit_mask = true;
             self.intersection_bit_mask(iterators)?
         } else {
